@@ -1,9 +1,11 @@
 #!/bin/bash
-# usage: tools/detect_patch.sh <patch.diff> <ID> [tier] - runs check ID against a scratch worktree of /repo HEAD with the patch
+# usage: tools/detect_patch.sh <patch.diff> <ID> [tier] - runs check ID against a scratch worktree of /repo HEAD with the patch,
+# from a snapshot of /verif
 set -u
 patch=$(readlink -f "$1"); id=$2; tier=${3:-quick}
-WT=/tmp/mut/dp_$$
+WT=/tmp/mut/dp_$$; SNAP=/tmp/mut/vsnap_$$
 git -C /repo worktree add --detach $WT HEAD -q || exit 2
 ( cd $WT && git apply "$patch" ) || { echo "patch does not apply"; git -C /repo worktree remove --force $WT; exit 2; }
-cd /verif && VERIF_REPO=$WT VERIF_EVIDENCE_DIR=/tmp/mut/ev_$$ VERIF_REPLAY_DIR=/tmp/mut/rp_$$ VERIF_BUILD_DIR=/tmp/mut/bd_$$ timeout 2400 ./check $id --tier $tier 2>&1 | grep -E "VIOLATION|key=|MACHINERY|^\[$id\]" | cut -c1-330
-git -C /repo worktree remove --force $WT; rm -rf /tmp/mut/ev_$$ /tmp/mut/rp_$$ /tmp/mut/bd_$$
+mkdir -p $SNAP && rsync -a --exclude .git --exclude build --exclude evidence --exclude replay --exclude seeded /verif/ $SNAP/
+cd $SNAP && VERIF_REPO=$WT VERIF_EVIDENCE_DIR=/tmp/mut/ev_$$ VERIF_REPLAY_DIR=/tmp/mut/rp_$$ VERIF_BUILD_DIR=/tmp/mut/bd_$$ timeout 2400 ./check $id --tier $tier 2>&1 | grep -E "VIOLATION|key=|MACHINERY|^\[$id\]" | cut -c1-330
+cd /verif; git -C /repo worktree remove --force $WT; rm -rf /tmp/mut/ev_$$ /tmp/mut/rp_$$ /tmp/mut/bd_$$ $SNAP
